@@ -54,6 +54,7 @@ pub mod step_proofs {
         if ax != bx {
             assert!(subscribed(&ctx, c), "rule reads a neighbour it is not subscribed to (missing dependency edge): declaration order can change the result");
         }
+        /*EXTRA_CHECK*/
         kani::cover!(ax != bx, "the neighbour's fact influences the result");
         kani::cover!(ra == ConstrainResult::Changed, "Changed returned");
         kani::cover!(true, "end of the step harness reached");
